@@ -679,7 +679,9 @@ pub fn exec(line: &str, _model: &mut Model) -> Option<Exec> {
             let r = no_panic(|| new_status_report_bundle(&b, src.clone(), crc, pos, reason));
             let mut e;
             match r {
-                None => { e = Exec::new("panic".into()); }
+                None => { e = Exec::new("panic".into());
+                    // a report about a whole (non-fragment) bundle for one of the four status items must come into being
+                    if b.primary.bundle_control_flags & 1 == 0 && pos < 4 { e.oracle_fail = Some("building the status-report bundle panics for a non-fragment subject and a defined status item".into()); } }
                 Some(mut rb) => {
                     // the sequence number comes from the process-wide generator: normalise it
                     let seq_real = rb.primary.creation_timestamp.seqno();
